@@ -18,23 +18,23 @@ CHECKS = {
     "C01": dict(
         engine="E1+E2+E3",
         category="exploration",
-        text="Generated histories of operations that hand memory to the kernel with drops at every life-cycle point, cancel-race outcomes and EINTR/ECANCELED re-issues; the simulated kernel decodes every user region of each consumed SQE and holds it in a tracking global allocator until the final CQE: a free/realloc overlapping a held region, a region outside live heap/static memory, a moved block or changed source bytes is a violation.",
+        text="Generated histories of operations that hand memory to the kernel with drops at every life-cycle point, cancel-race outcomes and EINTR/ECANCELED re-issues; the simulated kernel decodes every user region of each consumed SQE and holds it in a tracking global allocator until the final CQE: a free/realloc overlapping a held region, a region outside live heap/static memory, a moved block or changed source bytes is a violation. One case in five is a multi-completion case (multishot accept, zero-copy send/send_vectored, drops between the two completions, Ring dropped while a notification is outstanding): memory stays put until the kernel's last completion of the request.",
         design_ref="5/C01",
         technique="model-based property testing against a simulated kernel + tracking allocator invariant monitor",
     ),
     "C02": dict(
         engine="E1+E3",
         category="exploration",
-        text="Generated histories with several concurrently in-flight operations carrying unique scripted results, completions posted in generated permutations/batches with consumer polls in between; reference model decides for every poll whether Pending or Ready(v) is legal and what v must be.",
+        text="Generated histories with several concurrently in-flight operations carrying unique scripted results, completions posted in generated permutations/batches with consumer polls in between; reference model decides for every poll whether Pending or Ready(v) is legal and what v must be. One case in five is a multi-completion case: per-operation FIFO of consumed completions; multishot results in kernel order, once, end exactly once; zero-copy sends resolve only after the notification with the first completion's value.",
         design_ref="5/C02",
         technique="model-based property testing (reference model of per-operation result delivery)",
     ),
     "C03": dict(
         engine="E1+E3",
         category="exploration",
-        text="C03a quiescence check after every Ring::poll in generated single-thread histories (counting wakers, replaced wakers, over-subscribed 1..4-entry queues): no operation is ready-but-unwoken, operations waiting for queue space are woken once slots are free. Liveness is decided in this safety form only.",
+        text="C03a quiescence check after every Ring::poll in generated single-thread histories (counting wakers, replaced wakers, over-subscribed 1..4-entry queues): no operation is ready-but-unwoken, operations waiting for queue space are woken once slots are free. Liveness is decided in this safety form only. C03b (2 of 5 cases): submitter threads and the Ring thread interleaved by a baton scheduler at a10's lock/atomic points and every simulated system call; afterwards an executor that re-polls only woken operations must finish everything, first without any completion (queue-space wake-ups), then with completions.",
         design_ref="5/C03",
-        technique="model-based property testing with counting wakers; quiescence invariant after each Ring::poll",
+        technique="model-based property testing with counting wakers (quiescence invariant after each Ring::poll) + schedule-controlled concurrency testing (generated schedules under a baton scheduler, executor-progress oracle)",
     ),
     "C04": dict(
         engine="E1+E3 (+E4 for the scheduled sub-check)",
@@ -56,7 +56,7 @@ CHECKS.update({
     "C06": dict(
         engine="E1+E2+E3",
         category="exploration",
-        text="Generated histories with drops at every life-cycle point x scripted cancel-race outcomes x full/non-full queue: SQEs published by each drop are diffed against the model (exactly one ASYNC_CANCEL for that user_data iff running and room), the operation-state block and resources must be live until / dead after the Ring::poll that consumes the final CQE, never freed twice, nothing live at the end.",
+        text="Generated histories with drops at every life-cycle point x scripted cancel-race outcomes x full/non-full queue: SQEs published by each drop are diffed against the model (exactly one ASYNC_CANCEL for that user_data iff running and room), the operation-state block and resources must be live until / dead after the Ring::poll that consumes the final CQE, never freed twice, nothing live at the end. One case in five is a multi-completion case (drops after some multishot results, between the two completions of a zero-copy send, after the Ring): reclamation exactly once after the final completion, not the first.",
         design_ref="5/C06",
         technique="model-based property testing; cancel-SQE diff oracle + allocation-lifetime oracle from a tracking allocator",
     ),
@@ -112,9 +112,9 @@ CHECKS.update({
     "C08": dict(
         engine="E1 + pool history driver",
         category="exploration",
-        text="Generated pool histories (pools of 1..64 buffers; single-shot/multishot pool reads and receives started, completed with kernel-selected buffers, dropped in flight; ReadBufs edited, released twice, dropped, dropped on another thread, re-read into; pool handles cloned) against an ownership model bid -> Kernel | InCompletion | Owned; ring entries must be well formed, never name an owned buffer, never repeat; ReadBuf bytes never change underneath; every buffer is offered again at the end; plus > 65 536 release cycles for the 16-bit tail wrap.",
+        text="Generated pool histories (pools of 1..64 buffers; single-shot/multishot pool reads and receives started, completed with kernel-selected buffers, dropped in flight; ReadBufs edited, released twice, dropped, dropped on another thread, re-read into; pool handles cloned) against an ownership model bid -> Kernel | InCompletion | Owned; ring entries must be well formed, never name an owned buffer, never repeat; ReadBuf bytes never change underneath; every buffer is offered again at the end; plus > 65 536 release cycles for the 16-bit tail wrap. C08b (1 of 4 cases): concurrent releases from 1..3 threads and 0..4 kernel buffer selections interleaved by the baton scheduler at the pool lock and ring-tail load/store points; the kernel never gets an owned buffer or one twice and every released buffer is offered exactly once.",
         design_ref="5/C08",
-        technique="stateful model-based property testing (ownership model of provided buffers) over a simulated kernel",
+        technique="stateful model-based property testing (ownership model of provided buffers) over a simulated kernel + schedule-controlled concurrency testing of concurrent releases against a kernel actor",
     ),
 })
 
@@ -142,7 +142,7 @@ CHECKS.update({
     "C12": dict(
         engine="E1+E2+E3",
         category="exploration",
-        text="Generated histories ending in a generated permutation of dropping {Ring, queue handles, AsyncFd, every future (unpolled/blocked/queued/running/abandoned/finished), ReadBufPool, ReadBufs}, some drops on a helper thread, then wake(): no panic, ring mappings unmapped exactly once with the right length, ring descriptor closed once and last, Ring drop submits/cancels/reclaims, pool memory never freed while registered, no descriptor, registration, heap block or waker clone left behind.",
+        text="Generated histories ending in a generated permutation of dropping {Ring, queue handles, AsyncFd, every future (unpolled/blocked/queued/running/abandoned/finished), ReadBufPool, ReadBufs}, some drops on a helper thread, then wake(): no panic, ring mappings unmapped exactly once with the right length, ring descriptor closed once and last, Ring drop submits/cancels/reclaims, pool memory never freed while registered, no descriptor, registration, heap block or waker clone left behind. Rings include single_issuer+defer_task_run ones (simulator K13: task-work completions visible only in enter(GETEVENTS)) and requests completing inline during the Ring's drop flush.",
         design_ref="5/C12",
         technique="model-based property testing with generated teardown permutations; mmap/close ledger (libc interposition) and allocation-tracker oracles",
     ),
